@@ -1,5 +1,6 @@
 """C20 — LuceneCheck is total, consistent, and finds an ill-formed construct anywhere."""
 import copy
+import json
 
 from .. import common, gen, trees
 
@@ -114,6 +115,32 @@ def replace_at(d, path, new):
     return r
 
 
+def share_equal_subtrees(o):
+    """make structurally identical sub-trees (same dump, layout included) ONE object, as a program that builds a
+    query from parts does (`fg = FieldGroup(...); AndOperation(SearchField("f", fg), Plus(fg))`). Returns the number
+    of nodes replaced. The verdict on a node depends on where it stands, not on whether the object was met before
+    (seeded C20-E: a visited-id set in `check`)"""
+    seen = {}
+    n = 0
+    stack = [o]
+    while stack:
+        node = stack.pop()
+        kids = list(node.children)
+        new = []
+        for c in kids:
+            key = (type(c).__name__, json.dumps(common.dump_tree(c), sort_keys=True, default=str))
+            if key in seen and seen[key] is not c:
+                new.append(seen[key])
+                n += 1
+            else:
+                seen.setdefault(key, c)
+                new.append(c)
+        if any(a is not b for a, b in zip(kids, new)):
+            node.children = new
+        stack.extend(c for c in new)
+    return n
+
+
 def run_check(ctx, d, zeal, info):
     """-> (errors list or None, call result)"""
     I = common.impl()
@@ -132,6 +159,20 @@ def run_check(ctx, d, zeal, info):
         ctx.fail("__call__ answers %r but errors() has %d messages" % (res, len(errs)), dict(info, errors=errs))
     if not trees.unchanged(o, snap):
         ctx.fail("the checker modified the tree", info)
+    o2 = common.load_tree(d)
+    if share_equal_subtrees(o2):
+        ctx.count("trees with shared node objects")
+        try:
+            c2 = I.check.LuceneCheck(zeal=zeal)
+            errs2 = c2.errors(o2)
+            res2 = c2(o2)
+        except Exception as e:
+            ctx.fail("LuceneCheck raised %s on a tree whose equal parts are one object: %s" % (type(e).__name__, e), info)
+            return errs, res
+        # (only acceptance is compared: the property does not say how often a message about a shared part is given)
+        if res2 is not res or (errs2 == []) != (errs == []) or res2 is not (len(errs2) == 0):
+            ctx.fail("acceptance changes when equal sub-trees are one shared object: %r / %r instead of %r / %r" % (
+                res2, errs2, res, errs), info)
     return errs, res
 
 
@@ -182,7 +223,10 @@ def run(ctx):
             for i in path[:-1]:
                 parent = parent["ch"][i]
             after_field = bool(path) and parent["c"] == "SearchField"
-            for kind, defect in defects(rng):
+            own = [n for _, n in common.tree_nodes(d) if n["c"] == "FieldGroup"]
+            extra = [("field group not after a field (a copy of one of the tree's own field groups)",
+                      copy.deepcopy(rng.choice(own)))] if own and not after_field else []
+            for kind, defect in list(defects(rng)) + extra:
                 if kind == "field group not after a field" and after_field:
                     # there a FieldGroup is well placed; the misplaced construct is a plain Group
                     kind, defect = "group directly after a field (in place)", mk("Group", [W("a")])
@@ -195,6 +239,35 @@ def run(ctx):
                 if e2 == []:
                     ctx.fail("a tree with a %s at %s is accepted" % (kind, list(path)),
                              {"tree": m, "zeal": zeal, "defect": kind, "at": list(path)})
+    # (d) numbers the model's finite decimals cannot express (implementation only): a degree that is not a number,
+    # infinite, or a negative zero, at the root and under every wrapper, every zeal. The checker must answer, never
+    # raise (fix F7: the message of a negative degree was formatted with %d), and a degree with a minus sign is a
+    # negative fuzziness
+    T = I.tree
+    wrappers = [lambda x: x, lambda x: T.Group(x), lambda x: T.SearchField("f", x), lambda x: T.Boost(x, "2"),
+                lambda x: T.Plus(x), lambda x: T.AndOperation(T.Word("a"), x), lambda x: T.OrOperation(x, T.Word("b")),
+                lambda x: T.SearchField("f", T.FieldGroup(T.UnknownOperation(T.Word("a"), x)))]
+    for deg in ("NaN", "-NaN", "Infinity", "-Infinity", "-0", "-0.0"):
+        for w in wrappers:
+            for zeal in (0, 1, 2):
+                try:
+                    t = w(T.Fuzzy(T.Word("foo"), deg))
+                except Exception:
+                    continue
+                info = {"tree": repr(t), "degree": deg, "zeal": zeal}
+                ctx.case(("exotic degree", deg, repr(t), zeal), nontrivial=True)
+                ctx.count("exotic degree")
+                try:
+                    c = I.check.LuceneCheck(zeal=zeal)
+                    errs = c.errors(t)
+                    res = c(t)
+                except Exception as e:
+                    ctx.fail("LuceneCheck raised %s: %s" % (type(e).__name__, e), info)
+                    continue
+                if res is not (len(errs) == 0) or not all(isinstance(x, str) for x in errs):
+                    ctx.fail("__call__ answers %r but errors() is %r" % (res, errs), info)
+                if deg.startswith("-") and res:
+                    ctx.fail("a fuzzy with the negative degree %s is accepted" % deg, info)
     if ctx.model_ok:
         for r, a, e in zip(reqs, common.ask_model(reqs), exp):
             if a != e:
